@@ -128,6 +128,10 @@ impl TypeResolver<'_> {
     /// Reports the type if the type is not an elementary type and is not
     /// declared.
     fn check_declared(&mut self, name: &Type) {
+        self.check_declared_as(name, "Variable type")
+    }
+
+    fn check_declared_as(&mut self, name: &Type, what: &str) {
         if !is_elementary_type(name)
             && !is_unsupported_standard_type(name)
             && self.types.find(name).is_none()
@@ -135,7 +139,7 @@ impl TypeResolver<'_> {
             self.diagnostics.push(
                 Diagnostic::problem(
                     Problem::UndeclaredUnknownType,
-                    Label::span(name.span(), "Variable type"),
+                    Label::span(name.span(), what),
                 )
                 .with_context_type("identifier", name),
             );
@@ -144,6 +148,15 @@ impl TypeResolver<'_> {
 }
 
 impl<'a> Fold<Diagnostic> for TypeResolver<'a> {
+    fn fold_function_declaration(
+        &mut self,
+        node: FunctionDeclaration,
+    ) -> Result<FunctionDeclaration, Diagnostic> {
+        // The type of the value that the function returns
+        self.check_declared_as(&node.return_type, "Return type");
+        node.recurse_fold(self)
+    }
+
     fn fold_initial_value_assignment_kind(
         &mut self,
         node: InitialValueAssignmentKind,
